@@ -7,8 +7,11 @@ open Lean SplinkVerif SplinkVerif.Cache
 def pairHash (t u : Nat) : Nat := (t + u) * (t + u + 1) / 2 + u
 
 /-- `{"op":"cache_trace","events":[{"k":"req","templ":n,"text":n,"use_cache":b} | {"k":"set_named","templ":n,"ptempl":n,"ptext":n,"puid":n}
-     | {"k":"drop","templ":n,"text":n,"uid":n} | {"k":"invalidate"} ]}` → hit/miss of every request.
-Texts, templated names are integer codes; `eval text data := text`. -/
+     | {"k":"drop","templ":n,"text":n,"uid":n} | {"k":"forget_named","templ":n} | {"k":"invalidate"}
+     | {"k":"resalt"} | {"k":"reregister"} ]}` → hit/miss of every request.
+Texts, templated names are integer codes; `eval text data := text`.  The model's uid is a counter: it is 0 until the
+first `resalt` and `n` after the n-th one, so the caller must code the n-th salt it observes as `n` (and give the tables
+that no request produced uid codes that no counter value reaches). -/
 def handleCacheTrace (j : Json) : Except String Json := do
   let evs ← getArr j "events"
   let eval := fun (t _d : Nat) => t
@@ -33,6 +36,10 @@ def handleCacheTrace (j : Json) : Except String Json := do
       s := forgetNamed s (← getNat e "templ")
     else if k == "invalidate" then
       s := invalidate s
+    else if k == "resalt" then
+      s := resalt s
+    else if k == "reregister" then
+      s := reregister s
     else throw s!"bad event {k}"
   pure <| Json.mkObj [("hits", Json.arr out)]
 end SplinkVerif.Drv
